@@ -222,6 +222,7 @@ def check_sub(part, spec, obj, strong, forms):
         if 0 < len(reg) < (len(I) + 1) ** 2 and len(I) < len(patt):
             nontriv += 1
     part.add(len(strong), nontriv)
+    part.bump("submesh:pattern-x-subset", len(strong))
 
 
 def shard_sub(shard):
@@ -405,6 +406,7 @@ def shard_mim(shard):
                 if 0 < len(exp) < ncl or (exp and npsh < (len(pspec[1]) + 1) ** 2 and len(qspec[1]) >= 1):
                     nt = 1
             part.add(1, nt)
+            part.bump(sub + ":pairs")
             if exp:
                 part.bump(sub + ":pairs-with-occurrence")
                 if nt and len(part.samples) < 1 and len(qspec[1]) >= 1 and len(qspec[1]) < len(pspec[1]):
@@ -432,6 +434,7 @@ def shard_multi(shard):
             if got != exp:
                 part.violation("multi", case, {"expected": list(exp), "got": list(got)})
             part.add(1, 1 if c[i] != c[j] else 0)
+            part.bump("multi:argument-lists")
     return part
 
 
@@ -456,6 +459,7 @@ def shard_multi_targets(shard):
             if got != exp:
                 part.violation("multi", case, {"expected": list(exp), "got": list(got)})
             part.add(1, 1 if c[i] != c[j] else 0)
+            part.bump("multi:argument-lists")
     return part
 
 
@@ -511,6 +515,10 @@ def run(ctx, only=None):
         "horizon for the semantic reference: sigma of length <= 5 for |p| <= 3, |p|+1 for longer p "
         "and for the exhaustive length-3 sweep (|p|+1 is sufficient: restrict sigma to the "
         "occurrence plus the offending point)",
+        "sub_mesh_pattern takes a SET of points: the indices in reversed order, as a list or as a one-shot "
+        "iterator must give the same pattern (the signature says Iterable[int]; the code sorts them)",
+        "a Perm given as the TARGET of contained_in/avoided_by is a text (C03 semantics), so only "
+        "mesh-type targets are used here; a Perm given as the smaller pattern q is viewed as unshaded",
         "exactness of occurrences_in(MeshPatt) (not only soundness) is demanded because its docstring "
         "defines it through sub_mesh_pattern, which the property requires to be exact",
     ]
@@ -594,8 +602,9 @@ def run(ctx, only=None):
         n2 = len(_FAM["M2"])
         jobs += [(shard_mim, ("mim3", "Q3", "M2", lo, min(n2, lo + 64), "none"))
                  for lo in range(0, n2, 64)]
-        ctx.bounds["mim3"] = {"p": "%d patterns of length 3 (%s shaded cells, unions of full rows/columns, code base)"
-                                   % (n, "0/1/15/16 shaded cells; 1, 2, 7 or 8 full lines" if quick else "0/1/2/14/15/16"),
+        ctx.bounds["mim3"] = {"p": "%d patterns of length 3 (%s, code base)"
+                                   % (n, "0/1/15/16 shaded cells, unions of 1, 2, 7 or 8 full rows/columns" if quick
+                                      else "0/1/2/14/15/16 shaded cells, all unions of full rows/columns"),
                               "q": "%d patterns of length <= 2 and %d of length 3" % (len(_FAM["Q2"]), len(_FAM["Q3"])),
                               "also": "q of length 3 against all p of length <= 2 (never occurs)"}
 
@@ -614,7 +623,8 @@ def run(ctx, only=None):
     if want("multi"):
         n = len(_FAM["M2"])
         jobs += [(shard_multi, ("MQ", "M2", lo, min(n, lo + 32))) for lo in range(0, n, 32)]
-        jobs.append((shard_multi, ("MQ", "P3", 0, len(_FAM["P3"]) if not quick else 200)))
+        if not quick:
+            jobs.append((shard_multi, ("MQ", "P3", 0, len(_FAM["P3"]))))
         jobs.append((shard_multi_targets, ("MQ", "MQ", 0, len(MULTI_Q))))
         ctx.bounds["multi"] = ("all ordered pairs of an %d-pattern pool as arguments of contains/avoids of "
                                "every mesh pattern of length <= 2%s; contained_in/avoided_by with all ordered "
